@@ -34,6 +34,14 @@ func (c *Ctx) scanObligations(prop string) ([]*Obligation, map[string]interface{
 		out = append(out, ob)
 		info["reset "+d.Type] = rinfo
 	}
+	for _, d := range c.cf.MapOrders {
+		if d.Prop != prop {
+			continue
+		}
+		obs, minfo := c.scanMapOrder(d)
+		out = append(out, obs...)
+		info["maporder "+d.File] = minfo
+	}
 	eo, einfo := c.scanEffects(prop)
 	out = append(out, eo...)
 	for k, v := range einfo {
@@ -713,4 +721,183 @@ func (c *Ctx) scanReset(d ResetDirective) (*Obligation, string) {
 		ob.Model += d.Reset + " does not reset fields the readers depend on: " + strings.Join(missing, ", ")
 	}
 	return ob, fmt.Sprintf("fields of %s read by %v and their callees: %v; all must be written by %s", d.Type, d.Readers, all, d.Reset)
+}
+
+// scanMapOrder: order-independence of first-match scans over Go maps.
+// Directive:  //@ maporder C20 <file.go>
+// For every range-over-map loop in the file that can be left early (a return or
+// a jump out of the loop from inside its body), the iteration KEY must not flow
+// into anything observable (a call argument, a store, a returned value): which
+// key is met first depends on Go's randomised iteration order.  The value may
+// be used (entries reached under different keys may share one value); keys may
+// be compared, used to index the same map again, or passed to the debug printers.
+func (c *Ctx) scanMapOrder(d MapOrderDirective) ([]*Obligation, string) {
+	var out []*Obligation
+	var names []string
+	for n := range c.funcs {
+		names = append(names, n)
+	}
+	sort.Strings(names)
+	loops, early := 0, 0
+	for _, name := range names {
+		fn := c.funcs[name]
+		if fn.Blocks == nil || !fn.Pos().IsValid() || shortFile(c.fset.Position(fn.Pos()).Filename) != d.File {
+			continue
+		}
+		k := 0
+		for _, b := range fn.Blocks {
+			for _, in := range b.Instrs {
+				nx, ok := in.(*ssa.Next)
+				if !ok || nx.IsString {
+					continue
+				}
+				loops++
+				head := nx.Block()
+				// natural loop of head
+				body := map[*ssa.BasicBlock]bool{head: true}
+				for _, p := range fn.Blocks {
+					for _, s2 := range p.Succs {
+						if s2 == head && head.Dominates(p) {
+							stack := []*ssa.BasicBlock{p}
+							for len(stack) > 0 {
+								n := stack[len(stack)-1]
+								stack = stack[:len(stack)-1]
+								if body[n] {
+									continue
+								}
+								body[n] = true
+								stack = append(stack, n.Preds...)
+							}
+						}
+					}
+				}
+				// early exit: an edge from a body block other than the head to outside the loop, or a return inside
+				hasEarly := false
+				for bb := range body {
+					if bb == head {
+						continue
+					}
+					for _, s2 := range bb.Succs {
+						if !body[s2] {
+							// leaving the loop into a panic is an abort, not an early exit with a result
+							if len(s2.Instrs) > 0 {
+								if _, isPanic := s2.Instrs[len(s2.Instrs)-1].(*ssa.Panic); isPanic {
+									continue
+								}
+							}
+							hasEarly = true
+						}
+					}
+					if len(bb.Instrs) > 0 {
+						if _, isRet := bb.Instrs[len(bb.Instrs)-1].(*ssa.Return); isRet {
+							hasEarly = true
+						}
+					}
+				}
+				// blocks reachable after an early exit also count: conservatively, any use of the key anywhere
+				var key ssa.Value
+				for _, r := range *nx.Referrers() {
+					if e, ok := r.(*ssa.Extract); ok && e.Index == 1 {
+						key = e
+					}
+				}
+				ob := &Obligation{Name: fmt.Sprintf("%s#order.firstmatch#%d", name, k), Kind: "order.firstmatch", Fn: name, Backend: "ssa-scan", Status: "ok", Pos: c.posStr(nx.Pos())}
+				k++
+				if hasEarly {
+					early++
+				}
+				if hasEarly && key != nil {
+					var bad []string
+					seen := map[ssa.Value]bool{}
+					var walk func(v ssa.Value)
+					walk = func(v ssa.Value) {
+						if seen[v] || v.Referrers() == nil {
+							return
+						}
+						seen[v] = true
+						for _, r := range *v.Referrers() {
+							switch x := r.(type) {
+							case *ssa.DebugRef:
+							case *ssa.BinOp:
+								// comparisons are fine; concatenation etc. propagates
+								switch x.Op {
+								case token.EQL, token.NEQ, token.LSS, token.GTR, token.LEQ, token.GEQ:
+								default:
+									walk(x)
+								}
+							case *ssa.Lookup:
+								if x.Index == v {
+									continue // indexing a map with the key
+								}
+								walk(x)
+							case *ssa.Call:
+								cal := x.Call.StaticCallee()
+								if cal != nil && (cal.Name() == "P" || cal.Name() == "Q" || cal.Name() == "VPrintf" || cal.Name() == "vv") {
+									continue
+								}
+								bad = append(bad, fmt.Sprintf("key passed to %s at %s", calleeBareName(x.Common()), c.posStr(x.Pos())))
+							case *ssa.Store:
+								if onlyFormatsMessage(x.Addr) {
+									continue // the key only names the entry in an error / debug message
+								}
+								bad = append(bad, "key stored at "+c.posStr(x.Pos()))
+							case *ssa.Return:
+								bad = append(bad, "key returned at "+c.posStr(x.Pos()))
+							case *ssa.MapUpdate:
+								bad = append(bad, "key written to a map at "+c.posStr(x.Pos()))
+							case *ssa.MakeInterface, *ssa.ChangeType, *ssa.Convert, *ssa.Phi, *ssa.Slice, *ssa.ChangeInterface:
+								walk(x.(ssa.Value))
+							case *ssa.IndexAddr, *ssa.FieldAddr:
+								walk(x.(ssa.Value))
+							}
+						}
+					}
+					walk(key)
+					if len(bad) > 0 {
+						ob.Status = "failed"
+						sort.Strings(bad)
+						ob.Model = "range over a map with an early exit lets the iteration key reach an observable position (result depends on Go's map order): " + strings.Join(bad, "; ")
+					}
+				}
+				out = append(out, ob)
+			}
+		}
+	}
+	return out, fmt.Sprintf("%d range-over-map loops, %d with an early exit", loops, early)
+}
+
+// onlyFormatsMessage: addr is a slot of a varargs array that is passed only to fmt / debug printers.
+func onlyFormatsMessage(addr ssa.Value) bool {
+	ia, ok := addr.(*ssa.IndexAddr)
+	if !ok {
+		return false
+	}
+	al, ok := ia.X.(*ssa.Alloc)
+	if !ok || al.Referrers() == nil {
+		return false
+	}
+	for _, r := range *al.Referrers() {
+		sl, ok := r.(*ssa.Slice)
+		if !ok {
+			continue
+		}
+		if sl.Referrers() == nil {
+			return false
+		}
+		for _, u := range *sl.Referrers() {
+			call, ok := u.(*ssa.Call)
+			if !ok {
+				return false
+			}
+			cal := call.Call.StaticCallee()
+			if cal == nil {
+				return false
+			}
+			full := cal.String()
+			if !(strings.HasPrefix(full, "fmt.") || cal.Name() == "P" || cal.Name() == "Q" || cal.Name() == "VPrintf" || cal.Name() == "vv") {
+				return false
+			}
+		}
+	}
+	return true
 }
